@@ -129,6 +129,10 @@ def _b_cb(step, env):
         return df.parallelize(lambda row: None, 1, predicate=lambda row: (maybe(), True)[1])
     if which == 'computed':
         return df.add_computed_field([{'target': 'cc', 'operation': lambda row: (maybe(), 1)[1]}])
+    if which == 'cond_predicate':
+        return df.conditional(lambda dp: (maybe(), True)[1], df.Flow(df.add_field('cp', 'integer', 1)))
+    if which == 'cond_factory':
+        return df.conditional(lambda dp: True, lambda dp: (maybe(), df.Flow(df.add_field('cf', 'integer', 1)))[1])
     raise AssertionError(which)
 
 
@@ -200,6 +204,9 @@ PIPELINES = {
                {'op': 'conditional_true', 'steps': [S('rename_fields', {'a': 'a2'})], 'positions': [3]}],
     'parallelize': [SRC, {'op': 'c04_cb', 'which': 'par_rowfunc', 'id': 'par_rowfunc'}, S('add_field', 'z', 'integer', 7)],
     'parallelize_pred': [SRC, {'op': 'c04_cb', 'which': 'par_predicate', 'id': 'par_predicate'}],
+    'conditional': [SRC, S('add_field', 'z', 'integer', 7), {'op': 'c04_cb', 'which': 'cond_predicate', 'id': 'cond_predicate'},
+                    S('delete_fields', ['z']), {'op': 'c04_cb', 'which': 'cond_factory', 'id': 'cond_factory'},
+                    S('dump_to_path', {'$path': 'dump'})],
     'generator': [{'op': 'c04_gen', 'n': 130}, S('add_field', 'z', 'integer', 7), S('dump_to_path', {'$path': 'dump'})],
 }
 ARTEFACTS = {   # step op -> how to detect that it committed
